@@ -1363,3 +1363,6 @@ def obligations(tier):
             obs.append(Ob(f"O5x{i}", o5_harmonics([(20, 20)], comps=(i,), timeout_ms=800000), f"harmonics degree/order 20, component {i}", 900))
         obs.append(Ob("O8k3", o8_twobody((3,)), "TwoBody, K=3", 120))
     return obs
+
+
+ASSUMPTIONS.append("fields of ReductionParams the force model has no business with (rot_pnr, rot_rnp, rot_wt, lod: they belong to the whole-second calendar instant the reduction was built for) are free symbols: a derivative that depends on them cannot equal the reference; replays use an elapsed time with a fractional second")
